@@ -102,12 +102,16 @@ pub fn observe(ctx: &Ctx, st: &mut Stats, job: &Job) {
         }
     }
     let mut syms: Vec<Matrix> = Vec::with_capacity(8);
+    let mut built: Vec<Box<fast_qr::QRCode>> = Vec::with_capacity(8);
     for mask in 0..8 {
         let mut cfg = base.clone();
         cfg.mask = Some(mask);
         st.eval();
         match adapter::build(&cfg) {
-            Outcome::Ok(q) => syms.push(adapter::matrix_of(&q)),
+            Outcome::Ok(q) => {
+                syms.push(adapter::matrix_of(&q));
+                built.push(q);
+            }
             other => {
                 let j = Job { mask: Some(mask), ..job.clone() };
                 flag(st, ID, ("no-symbol".into(), format!("a symbol exists (v{v}), crate returned {}", other.describe())), &j, false);
@@ -118,6 +122,45 @@ pub fn observe(ctx: &Ctx, st: &mut Stats, job: &Job) {
     if syms.iter().any(|m| m.size != n) {
         flag(st, ID, ("size".into(), "forced-mask builds of one configuration differ in size".into()), job, false);
         return;
+    }
+    // the public masking function applied to a FINISHED symbol (built with mask a) with another pattern b: it is a
+    // masking step like any other - the data/EC/remainder modules where condition b holds are inverted, every other
+    // module (function patterns, both format copies, version information) keeps its value and its label, and a
+    // second application restores the symbol
+    {
+        let a = (job.seed >> 4) as usize % 8;
+        let b = (a + 1 + (job.seed >> 7) as usize % 7) % 8;
+        let orig = built[a].clone();
+        let probe = adapter::guarded(|| {
+            let mut q = (*orig).clone();
+            fast_qr::datamasking::mask(&mut q, adapter::MASKS[b]);
+            let once = q.clone();
+            fast_qr::datamasking::mask(&mut q, adapter::MASKS[b]);
+            (once, q)
+        });
+        match probe {
+            Err(p) => {
+                flag(st, ID, ("direct-mask-panic".into(), format!("datamasking::mask({b}) on a finished version {v} symbol built with mask {a} panicked: {p}")), job, false);
+                return;
+            }
+            Ok((once, twice)) => {
+                for r in 0..n {
+                    for c in 0..n {
+                        let (o, m) = (orig.data[r * n + c], once.data[r * n + c]);
+                        let want_flip = map.at(r, c) == Region::Data && mask_bit(b, r, c);
+                        if (o.value() != m.value()) != want_flip || o.module_type() != m.module_type() {
+                            flag(st, ID, ("direct-mask-on-symbol".into(), format!("datamasking::mask({b}) applied to a finished version {v} symbol built with mask {a}: {} module (row {r}, col {c}) {} (label {} -> {}); the ISO condition of mask {b} {} there", map.at(r, c).name(), if o.value() != m.value() { "changed" } else { "did not change" }, adapter::label_name(o.module_type()), adapter::label_name(m.module_type()), if mask_bit(b, r, c) { "holds" } else { "does not hold" })), job, false);
+                            return;
+                        }
+                    }
+                }
+                if once.data[n * n..] != orig.data[n * n..] || adapter::digest(&twice) != adapter::digest(&orig) {
+                    flag(st, ID, ("direct-mask-on-symbol-not-involutive".into(), format!("datamasking::mask({b}) applied twice to a finished version {v} symbol does not restore it (or touched the backing array beyond size^2)")), job, false);
+                    return;
+                }
+                st.count("direct_mask_calls_on_finished_symbols_checked", 2);
+            }
+        }
     }
     // each symbol names its own mask in the format information
     let mut named = [0usize; 8];
